@@ -71,10 +71,14 @@ type scenario struct {
 	prod [][]callRec
 
 	plan     map[int]op // action a handle callback takes for a given event id
+	// action the n-th redraw callback takes (a few entries only, so that redraws cannot feed themselves forever)
+	redrawPlan map[int]op
+	nRedraws   int
 	planMu   sync.RWMutex
 	slowCb   int        // percentage of callbacks that yield
 	retErr   error
 	done     chan struct{}
+	gid      atomic.Value // goroutine id of the goroutine that runs the loop
 	runBuf   string
 	runErr   error
 	runRet   uint64
@@ -163,8 +167,15 @@ func (s *scenario) handle(ev any) {
 
 func (s *scenario) redraw(full, final bool) {
 	enter := s.enterCb()
+	if o, ok := s.redrawPlan[s.nRedraws]; ok && !final {
+		s.doCall(o, -1, 0, &s.cbCalls)
+	}
+	s.nRedraws++
 	if int(enter)%100 < s.slowCb {
 		runtime.Gosched()
+		if enter%5 == 0 {
+			time.Sleep(20 * time.Microsecond)
+		}
 	}
 	s.shared++
 	exit := s.tick()
@@ -223,10 +234,24 @@ func (s *scenario) dump() []string {
 // ---------------------------------------------------------------------------
 // observing the loop goroutine
 
-// loopState returns the scheduler state of the goroutine executing loop.Run
-// ("select" = parked in Run's select with nothing ready), or "" if no
-// goroutine is inside Run.
-func loopState() string {
+// goroutineID returns the id of the calling goroutine.
+func goroutineID() string {
+	var b [64]byte
+	f := strings.Fields(string(b[:runtime.Stack(b[:], false)]))
+	if len(f) >= 2 {
+		return f[1]
+	}
+	return "?"
+}
+
+// loopState returns the scheduler state of this scenario's loop goroutine
+// ("select" = parked in Run's select with nothing ready; its callbacks never
+// select), or "" if it is not inside Run.
+func (s *scenario) loopState() string {
+	gid, _ := s.gid.Load().(string)
+	if gid == "" {
+		return ""
+	}
 	buf := make([]byte, 256<<10)
 	for {
 		n := runtime.Stack(buf, true)
@@ -236,21 +261,17 @@ func loopState() string {
 		}
 		buf = make([]byte, 2*len(buf))
 	}
+	prefix := "goroutine " + gid + " ["
 	for _, blk := range strings.Split(string(buf), "\n\n") {
-		if !strings.Contains(blk, "pkg/cli.(*loop).Run(") {
+		if !strings.HasPrefix(blk, prefix) || !strings.Contains(blk, "pkg/cli.(*loop).Run(") {
 			continue
 		}
-		// innermost non-runtime frame must be Run itself: otherwise the goroutine is inside a callback
 		head := blk
 		if i := strings.IndexByte(blk, '\n'); i >= 0 {
 			head = blk[:i]
 		}
-		a, b := strings.IndexByte(head, '['), strings.IndexByte(head, ']')
-		if a < 0 || b < a {
-			return "?"
-		}
-		st := head[a+1 : b]
-		if i := strings.IndexByte(st, ','); i >= 0 {
+		st := head[len(prefix):]
+		if i := strings.IndexAny(st, ",]"); i >= 0 {
 			st = st[:i]
 		}
 		return st
@@ -262,20 +283,24 @@ func loopState() string {
 // and only then, nothing that was put into its channels earlier is pending),
 // or Run has returned.
 func (s *scenario) waitParked() string {
-	deadline := time.Now().Add(30 * time.Second)
+	deadline := time.Now().Add(60 * time.Second)
+	pause := 20 * time.Microsecond
 	for {
 		select {
 		case <-s.done:
 			return "done"
 		default:
 		}
-		if loopState() == "select" {
+		if s.loopState() == "select" {
 			return "parked"
 		}
 		if time.Now().After(deadline) {
 			return "timeout"
 		}
-		time.Sleep(30 * time.Microsecond)
+		time.Sleep(pause)
+		if pause < 2*time.Millisecond {
+			pause *= 2
+		}
 	}
 }
 
@@ -534,12 +559,37 @@ func describe(ops []op) string {
 
 var errCommitted = errors.New("harness error value")
 
+// poisoned is set when a scenario could not be wound up; later cases of this
+// process would then run next to stale goroutines, so they are skipped.
+var poisoned bool
+
+func (s *scenario) abandon() {
+	s.lp.Return("abandoned", nil)
+	select {
+	case <-s.done:
+	case <-time.After(60 * time.Second):
+		poisoned = true
+	}
+}
+
 func runScenario(c *mon.Case) {
+	if poisoned {
+		c.Inconclusive("process-poisoned-by-earlier-timeout")
+		return
+	}
 	r := c.Rand
 	s := &scenario{c: c, lp: cli.VerifNewLoop(), plan: map[int]op{}, done: make(chan struct{})}
 	s.slowCb = []int{0, 10, 50, 100}[r.Intn(4)]
 	if r.Intn(3) == 0 {
 		s.retErr = errCommitted
+	}
+	s.redrawPlan = map[int]op{}
+	for k := r.Intn(6); k > 0; k-- {
+		kind := opRedraw
+		if r.Intn(2) == 0 {
+			kind = opRedrawFull
+		}
+		s.redrawPlan[r.Intn(40)] = op{kind: kind}
 	}
 	s.lp.HandleCb(s.handle)
 	s.lp.RedrawCb(s.redraw)
@@ -557,6 +607,7 @@ func runScenario(c *mon.Case) {
 	}
 	startLoop := func() {
 		go func() {
+			s.gid.Store(goroutineID())
 			s.runStart = s.tick()
 			buf, err := s.lp.Run()
 			s.runBuf, s.runErr = buf, err
@@ -629,6 +680,7 @@ func runScenario(c *mon.Case) {
 		switch s.waitParked() {
 		case "timeout":
 			c.Inconclusive("loop-neither-idle-nor-returned")
+			s.abandon()
 			return
 		case "done":
 			returned = true
@@ -674,6 +726,7 @@ func runScenario(c *mon.Case) {
 		switch s.waitParked() {
 		case "timeout":
 			c.Inconclusive("loop-did-not-return")
+			s.abandon()
 			return
 		case "parked":
 			s.violation("return:lost", "a Return call completed, yet the loop went idle (parked in its select) instead of returning", nil)
@@ -728,7 +781,7 @@ func Spec() *mon.Spec {
 	}
 	return &mon.Spec{
 		ID: "C32", Level: "exploration", Race: true,
-		Rule: "case = one real event loop (cli.VerifNewLoop) run in its own goroutine; 1..3 stages of 2..6 producer goroutines issuing Input(unique id), Redraw(false/true), yields and (in a third of the scenarios) Return(unique value) concurrently; handler callbacks sometimes call Redraw/Return themselves; every boundary call and callback is stamped with one atomic logical clock (call/ret, enter/exit). After every stage the harness waits WITHOUT sending anything until the loop goroutine is parked in Run's select (seen in a stop-the-world goroutine dump) - then no earlier channel item can be pending - and takes a census: every accepted input handled, every Redraw request followed by a redraw that entered after the request was invoked, every full request by a full redraw. Then 1..3 concurrent Return calls commit. Offline trace spec: callbacks never overlap (S1), handled events are sent events, at most once, in per-producer order, and ret(a)<call(b) => a handled before b / never b without a (S2), Run returns the value of a Return call that no other Return call completely preceded, exactly one final redraw, last callback, nothing after it, nothing handled after a handler called Return (S4). The race detector watches loop state and an unsynchronised variable touched by every callback. Non-trivial = completed scenario in which at least one producer call was made while a callback was running, or overlapped another recorded event (another stamp lies between its call and ret stamps), distinct by the projected order of boundary events; three phases run the same generator at GOMAXPROCS 1, 4, 16.",
+		Rule: "case = one real event loop (cli.VerifNewLoop) run in its own goroutine; 1..3 stages of 2..6 producer goroutines issuing Input(unique id), Redraw(false/true), yields and (in a third of the scenarios) Return(unique value) concurrently; handler callbacks sometimes call Redraw/Return themselves and a few redraw callbacks call Redraw themselves; every boundary call and callback is stamped with one atomic logical clock (call/ret, enter/exit). After every stage the harness waits WITHOUT sending anything until the loop goroutine is parked in Run's select (seen in a stop-the-world goroutine dump) - then no earlier channel item can be pending - and takes a census: every accepted input handled, every Redraw request followed by a redraw that entered after the request was invoked, every full request by a full redraw. Then 1..3 concurrent Return calls commit. Offline trace spec: callbacks never overlap (S1), handled events are sent events, at most once, in per-producer order, and ret(a)<call(b) => a handled before b / never b without a (S2), Run returns the value of a Return call that no other Return call completely preceded, exactly one final redraw, last callback, nothing after it, nothing handled after a handler called Return (S4). The race detector watches loop state and an unsynchronised variable touched by every callback. Non-trivial = completed scenario in which at least one producer call was made while a callback was running, or overlapped another recorded event (another stamp lies between its call and ret stamps), distinct by the projected order of boundary events; three phases run the same generator at GOMAXPROCS 1, 4, 16.",
 		Assumptions: []string{
 			"'arrival order' is decided only where it is observable: same producer, or Input(a) returned before Input(b) was called",
 			"inputs still buffered when the loop returns are legitimately unhandled (only prefix-closure is demanded); in scenarios without an early Return the idle census demands that every input was handled",
@@ -738,6 +791,11 @@ func Spec() *mon.Spec {
 			"how many already-buffered events may still be handled after a Return from another goroutine is not specified and not asserted; only a handler-issued Return must stop event handling",
 		},
 		Phases: []mon.Phase{ph("gmp1", 1, 2000, 50000), ph("gmp4", 4, 2000, 50000), ph("gmp16", 16, 2000, 50000)},
-		Floors: map[string]int{},
+		Floors: map[string]int{
+			"distinct_nontrivial": 1500, "interleavings": 1800, "callbacks": 150000, "handled_events": 120000,
+			"idle_censuses": 2500, "redraw_requests_checked_at_idle": 100000, "full_requests_checked_at_idle": 35000,
+			"early_return_scenarios": 500, "return_calls": 3500, "scenarios_exceeding_buffer": 250,
+			"calls_overlapping_other_events": 1000, "producer_calls_during_a_callback": 20000, "unhandled_at_return": 2000,
+		},
 	}
 }
